@@ -835,7 +835,7 @@ class RF24:
             buf_len = len(buf)
             pl_len = self._pl_len[0]
             if buf_len < pl_len:
-                buf += b"\0" * (pl_len - buf_len)
+                buf = buf + b"\0" * (pl_len - buf_len)
             elif buf_len > pl_len:
                 buf = buf[:pl_len]
         elif not buf or len(buf) > 32:
